@@ -134,7 +134,9 @@ def history_steps(rng, nsteps, interrupts=True, deletes=True, observe="restore_a
                 steps.append({"op": "tree", "tree": t})
             o = rng.choice(OPTS_POOL)
             if interrupts and rng.random() < 0.3:
-                steps.append(bk(o, crash_at=rng.randrange(3, 45), crash_empty=rng.random() < 0.4))
+                # a third of the interruptions hit the prologue (band directory, index directory, head)
+                k = rng.choice([4, 5, 6, 7]) if rng.random() < 0.35 else rng.randrange(3, 45)
+                steps.append(bk(o, crash_at=k, crash_empty=rng.random() < 0.4))
                 last_incomplete = True   # (unless the run was shorter than crash_at)
             else:
                 steps.append(bk(o))
@@ -202,14 +204,20 @@ def gen_c14(tier, seed):
             t2 = mutate_tree(rng, t, maxlen=9)
             steps += [{"op": "tree", "tree": t2}, bk(o), {"op": "tree", "tree": t}, bk(o)]
         scens.append({"id": sid("C14", "u", i), "props": ["C14"], "mode": "clean", "tags": ["unchanged"], "steps": steps})
-    m = 12 if tier == "quick" else 150
+    m = 16 if tier == "quick" else 200
     for i in range(m):
         # resume: every crash point of an interrupted run, followed by a backup of the same source
         t0 = random_tree(rng, nmax=5, pre_epoch=False, maxlen=9)
         t1 = mutate_tree(rng, t0, maxlen=9)
-        o = rng.choice(OPTS_POOL[:5])
-        pre = rng.random() < 0.6
-        steps = ([{"op": "tree", "tree": t0}, bk(o)] if pre else []) + [{"op": "tree", "tree": t1},
+        o = rng.choice(OPTS_POOL[:5] + [{"H": 1000, "M": 1000, "S": 1000}, {"H": 3, "M": 8, "S": 4}])
+        pre = rng.random() < 0.75
+        steps = ([{"op": "tree", "tree": t0}, bk(o)] if pre else [])
+        if pre and i % 2:
+            # two earlier versions, the later one adding small files: the versions share combined blocks only partly
+            t1 = [dict(n) for n in t0] + [node("/n%d" % j, "File", bytes([5 + j]) * (1 + j), mt=(1600000100 + j, 0)) for j in range(rng.randrange(1, 3))
+                                           if not any(path_str(n["p"]) == "/n%d" % j for n in t0)]
+            steps += [{"op": "tree", "tree": t1}, bk(o)]
+        steps += [{"op": "tree", "tree": t1},
                  {"op": "sweep", "base": bk(o), "mode": "crash_both", "sample": 0 if tier != "quick" else 14, "seed": i,
                   "then": [bk(o), {"op": "restore", "band": -1}]}]
         scens.append({"id": sid("C14", "resume", i), "props": ["C14"], "mode": "clean", "tags": ["resume"], "steps": steps})
@@ -370,6 +378,103 @@ def gen_c05(tier, seed):
 
 
 # ------------------------------------------------------------------------------------------
+# C06 gc || backup, C07 write-once and backup || backup
+
+def conc_archive(rng):
+    """History + new source for the interlock scenarios: 1-2 complete versions, a block that only
+    an old version references (it becomes garbage when that version is deleted) whose content
+    reappears in the new source, a block referenced by a kept version, a new block; sometimes
+    garbage left by an interrupted run."""
+    o = rng.choice([{"H": 2, "M": 4, "S": 2}, {"H": 1000, "M": 1000, "S": 1000}, {"H": 1, "M": 3, "S": 0}, {"H": 3, "M": 2, "S": 1}])
+    c_old = bytes([rng.choice([1, 2, 3])]) * rng.randrange(2, 5)      # only in version 0
+    c_keep = bytes([rng.choice([4, 5])]) * rng.randrange(2, 5)        # in every version
+    c_new = bytes([rng.choice([6, 7])]) * rng.randrange(2, 5)         # only in the new source
+    t0 = [node("/", "Dir"), node("/a", "File", c_keep), node("/b", "File", c_old)]
+    steps = [{"op": "tree", "tree": t0}, bk(o)]
+    nb = 1
+    if rng.random() < 0.4:
+        # garbage: an interrupted run stores a block and dies before the hunk; the next backup does not need it
+        c_g = bytes([9]) * rng.randrange(2, 5)
+        tg = [node("/", "Dir"), node("/a", "File", c_keep), node("/g", "File", c_g, mt=(1600000009, 0))]
+        steps += [{"op": "tree", "tree": tg}, bk(o, crash_at=rng.randrange(12, 22))]
+        nb += 1
+    else:
+        c_g = None
+    if rng.random() < 0.8 or c_g is not None:
+        t1 = [node("/", "Dir"), node("/a", "File", c_keep), node("/q", "File", bytes([8]) * 3, mt=(1600000003, 0))]
+        steps += [{"op": "tree", "tree": t1}, bk(o)]
+        nb += 1
+    t2 = [node("/", "Dir"), node("/a", "File", c_keep), node("/c", "File", c_old, mt=(1600000005, 0)),
+          node("/d", "File", c_new, mt=(1600000007, 0))]
+    if c_g is not None:
+        t2.append(node("/g2", "File", c_g, mt=(1600000011, 0)))
+    steps.append({"op": "tree", "tree": t2})
+    return steps, o, nb
+
+
+@check("C06", "model_checking", "TLA+ spec (Interlock.tla: backup || gc at storage-verb granularity, all interleavings by TLC) + real runs under a deterministic scheduler with preemption-bounded schedule enumeration, traces validated by TLC")
+def gen_c06(tier, seed):
+    rng = random.Random(seed * 1000 + 6)
+    mcs = []
+    for cfg in ["Interlock_repo.cfg"]:
+        r = cvlib.run_tlc_model("MC_Interlock.tla", cfg, timeout=600)
+        mcs.append(("MC_Interlock.tla", cfg, r))
+    scens = []
+    n = 24 if tier == "quick" else 200
+    for i in range(n):
+        steps, o, nb = conc_archive(rng)
+        dele = rng.choice([[0], [0], [], [nb - 1], list(range(nb))])
+        steps.append({"op": "conc_sweep",
+                      "actors": [bk(o, actor="bk"), {"op": "delete", "bands": dele, "actor": "gc"}],
+                      "preemptions": 2 if tier == "quick" or i % 4 else 3,
+                      "sample": 60 if tier == "quick" else 1500, "seed": seed * 100 + i,
+                      "then": [{"op": "restore_all"}, {"op": "validate"}]})
+        scens.append({"id": sid("C06", "s", i), "props": ["C06"], "mode": "conc", "tags": ["gc-vs-backup", "del" + "".join(map(str, dele))],
+                      "steps": steps})
+    return scens, mcs
+
+
+@check("C07", "model_checking", "TLA+ spec (write-once contract in Storage.tla, two-backup race in Interlock.tla checked by TLC) + every storage verb of real histories and of scheduled backup||backup runs judged by the spec's write-once monitors")
+def gen_c07(tier, seed):
+    rng = random.Random(seed * 1000 + 7)
+    mcs = []
+    r = cvlib.run_tlc_model("MC_Interlock.tla", "Interlock_race_repo.cfg", timeout=600)
+    mcs.append(("MC_Interlock.tla", "Interlock_race_repo.cfg", r))
+    scens = []
+    # single-writer clauses: histories with interrupted and resumed backups, deletes, gcs
+    n = 40 if tier == "quick" else 600
+    for i in range(n):
+        steps = history_steps(rng, rng.choice([4, 6, 9]), observe=None, validate=False)
+        scens.append({"id": sid("C07", "h", i), "props": ["C07"], "mode": "clean", "tags": ["history"], "steps": steps})
+    # direct contract probe of the transport
+    scens.append({"id": sid("C07", "probe", 0), "props": ["C07"], "mode": "probe", "tags": ["contract-probe"], "steps": [
+        {"op": "probe_write", "path": "probe_x", "content": [1, 2, 3], "mode": "new"},
+        {"op": "probe_write", "path": "probe_x", "content": [4, 5], "mode": "new"},
+        {"op": "probe_write", "path": "probe_x", "content": [1, 2, 3], "mode": "new"},
+        {"op": "probe_write", "path": "probe_y", "content": [], "mode": "new"},
+        {"op": "probe_write", "path": "probe_y", "content": [7], "mode": "new"},
+        {"op": "probe_write", "path": "probe_y", "content": [8], "mode": "new"},
+        {"op": "probe_write", "path": "probe_x", "content": [9], "mode": "over"}]})
+    # race clause: two backups of differing sources
+    m = 16 if tier == "quick" else 150
+    for i in range(m):
+        o = rng.choice(OPTS_POOL[:6])
+        steps = []
+        t0 = random_tree(rng, nmax=4, pre_epoch=False, maxlen=6)
+        for _ in range(rng.randrange(0, 3)):
+            steps += [{"op": "tree", "tree": t0}, bk(o)]
+            t0 = mutate_tree(rng, t0, maxlen=6)
+        ta = random_tree(rng, nmax=4, pre_epoch=False, maxlen=6)
+        tb = mutate_tree(rng, ta, maxlen=6, nmut=3)
+        steps.append({"op": "conc_sweep",
+                      "actors": [bk(o, actor="bk1", tree=ta), bk(rng.choice(OPTS_POOL[:6]), actor="bk2", tree=tb)],
+                      "preemptions": 2, "sample": 50 if tier == "quick" else 1000, "seed": seed * 100 + i,
+                      "then": [{"op": "restore_all"}]})
+        scens.append({"id": sid("C07", "race", i), "props": ["C07"], "mode": "conc", "tags": ["backup-vs-backup"], "steps": steps})
+    return scens, mcs
+
+
+# ------------------------------------------------------------------------------------------
 # C08 stitching: arrangements enumerated by TLC (spec/MC_Stitch.tla), replayed on harness-written archives
 
 C08_PATHS = {"Paths3": ["/a", "/b", "/a/b"], "Paths4": ["/a", "/ab", "/b", "/a/b"]}
@@ -479,6 +584,8 @@ NONTRIVIAL = {
     "C03": (lambda s: has_op(s, "sweep"), "distinct scenarios with a crash-point sweep (each sweep enumerates the storage verbs of the real run; counted per scenario, injected runs are reported as injections)"),
     "C04": (lambda s: has_op(s, "sweep") or any(st.get("fail_p") for st in s["steps"]), "distinct scenarios with at least one injected storage fault plan"),
     "C05": (lambda s: has_op(s, "delete") or has_op(s, "sweep"), "distinct histories ending in a delete/gc (dry, real, crash sweep or failing-read sweep)"),
+    "C06": (lambda s: has_op(s, "conc_sweep"), "distinct archives x delete sets, each with a sweep over preemption-bounded schedules of the real verbs (schedules are counted in events)"),
+    "C07": (lambda s: has_op(s, "conc_sweep") or sum(1 for st in s["steps"] if st["op"] == "backup") >= 2, "distinct histories with at least two backups, or backup||backup schedule sweeps"),
     "C08": (lambda s: sum(1 for b in s["steps"][0]["bands"] if b["head"] and not b["tail"]) >= 1 and len(s["steps"][0]["bands"]) >= 2,
             "distinct arrangements with at least two band directories of which at least one is an incomplete version (stitching happens)"),
     "C13": (lambda s: has_op(s, "backup"), "distinct histories with at least one backup"),
